@@ -28,11 +28,20 @@ RULE += (' Also: chain.from_iterable over a long lazy stream of pages (closeable
 RULE += (' Also: sized, lazily produced synchronous datasets as sources of every streaming tool.')
 RULE += (' Also: every tee pattern also over a source without aclose.')
 RULE += (' Also: three started tee children, two closed one after the other in every order.')
+RULE += (' Also: text / bytes pieces summed over a long stream.')
 ASSUMPTIONS = ["the bound's constant was read off the unchanged tree with slack; a buffering tool grows linearly and "
                "crosses it within a few steps, so the verdict does not depend on the exact constant"]
 EXHAUSTIVE = {"quick": False, "thorough": False}
 MAX_SHARDS = 16
 SIZES = {"quick": [60, 150, 300], "thorough": [60, 150, 300, 700, 1200, 2000]}
+
+
+class WStr(str):
+    """A piece of text that can be weakly referenced."""
+
+
+class WBytes(bytearray):
+    pass
 
 
 class W:
@@ -144,7 +153,7 @@ class SyncDataset:
             self.census.sample(f"pull {i} of {self.name}")
             item = self.make(i)
             for x in (item if isinstance(item, tuple) else (item,)):
-                if isinstance(x, W):
+                if isinstance(x, (W, WStr, WBytes)):
                     self.census.track(x)
             yield item
             del item
@@ -236,6 +245,10 @@ def _tools():
     T["all"] = (1, 0, lambda S, n: A.all(S[0]), "agg", {})
     T["any"] = (1, 0, lambda S, n: A.any(S[0]), "agg", {"falsy": True})
     T["sum"] = (1, 0, lambda S, n: A.sum(S[0], W(0)), "agg", {})
+    # pieces of text / bytes added up (the library, unlike the builtin, accepts a str start): one pass, the running
+    # total and the piece at hand - not the whole stream kept until its end
+    T["sum_text"] = (1, 0, lambda S, n: A.sum(S[0], ""), "agg", {"text": "str"})
+    T["sum_bytes"] = (1, 0, lambda S, n: A.sum(S[0], b""), "agg", {"text": "bytes"})
     T["min"] = (1, 1, lambda S, n: A.min(S[0]), "agg", {})
     T["max"] = (1, 1, lambda S, n: A.max(S[0], key=lambda x: x.key), "agg", {})
     T["reduce"] = (1, 1, lambda S, n: A.reduce(lambda a, b: b, S[0]), "agg", {})
@@ -287,6 +300,8 @@ def run_tool(case, stats):
         make = lambda i: (W(i), W(i))  # noqa: E731
     if opt.get("falsy"):
         make = lambda i: W(i, truth=False)  # noqa: E731
+    if opt.get("text"):
+        make = (lambda i: WStr(f"{i:04d}")) if opt["text"] == "str" else (lambda i: WBytes(b"%04d" % i))  # noqa: E731
     if opt.get("runs"):
         make = lambda i: W(i // opt["runs"])  # noqa: E731 - runs of equal items
     streams = [Stream(census, n if not (opt.get("uneven") and s) else n // 2, make, f"s{s}") for s in range(nsrc)]
